@@ -35,6 +35,10 @@ def shape_labels(an) -> list[str]:
         labs.append("bodies_under_top_level_if")
     if any(b.get("rdep") for b in an.bodies.values()):
         labs.append("run_dependent_ready")
+    if any(an.parent[x] is not None for x in an.methods):
+        labs.append("method_defined_inside_body")
+    if any(r[0] == "sbr" for r in an.spec.get("rels", [])):
+        labs.append("ready_dependent_schedule_before")
     if any(b.get("val") is not None for b in an.bodies.values()):
         labs.append("validate_arguments")
     return labs
